@@ -814,6 +814,8 @@ class Engine:
                 return [("ok", st, rec["attr:" + name])]
             if name == "__class__":
                 return [("ok", st, VClass(v.cls))]
+            if name == "__dict__" and v.kind == "obj":
+                return [("ok", st, VFunc("objdict", v))]       # only `obj.__dict__.update(<record>)` is supported
             r = self.class_attr(st, v, v.cls, name)
             if r is not None:
                 return r
@@ -857,6 +859,8 @@ class Engine:
         if isinstance(v, VOpaque):
             return [("ok", st, VOpaque(v.what + "." + name))]
         if isinstance(v, (VConc, VStr)):
+            return [("ok", st, VFunc("bound", v, name))]
+        if isinstance(v, VFunc) and v.kind == "objdict":
             return [("ok", st, VFunc("bound", v, name))]
         if isinstance(v, VFunc) and v.kind == "super":
             return [("ok", st, VFunc("partial", VFunc("unbound", v.a, name), (v.b,), {}))]
@@ -1054,6 +1058,15 @@ class Engine:
             r = h(self, st, recv, name, pos, kw)
             if r is not None:
                 return r
+        if isinstance(recv, VFunc) and recv.kind == "objdict" and name == "update" and len(pos) == 1 and not kw:
+            # obj.__dict__.update(state) with state a record (literal keys): the attributes are set, in order
+            st = B.to_record(st, pos[0])
+            upd = {}
+            for k, v in st.objs[pos[0].oid]["pyitems"]:
+                if isinstance(v, tuple) or not isinstance(k, str):
+                    raise Unsupported("__dict__.update with a conditional entry")
+                upd["attr:" + k] = v
+            return [("ok", st.updobj(recv.a.oid, **upd), NONE)]
         if isinstance(recv, (VObj, VRef)):
             for c in self.mro(recv.cls):
                 key = f"{c}.{name}"
